@@ -266,3 +266,35 @@ Definition rp_ev_deleted (e : event) : bool := match e with EvDeleted _ => true 
 Definition rp_facts_of (evs : list event) : rfacts :=
   {| fa_received := existsb rp_ev_eqb_recv evs; fa_sent_ok := existsb rp_ev_sent_ok evs;
      fa_handed := existsb rp_ev_handed evs; fa_deleted := existsb rp_ev_deleted evs |}.
+
+(* ------------------------------------------------------------------------------------------
+   The report on the wire: the administrative record that is the payload of the report bundle
+   (NewStatusReport + AdministrativeRecordManager.WriteAdministrativeRecord), in the format of
+   AuxCbor.v: [1, [[item, item, item, item], reason, source, [time, seq] (, offset, total length)]].
+   The reference bundle ID carries fragment offset and total length - in this order - exactly
+   when the bundle is a fragment. *)
+From DTN Require Import AuxCbor.
+
+Definition rp_wire_item (r : rp_sreport) (i : N) : sitem :=
+  if i =? rpr_pos r
+  then {| si_asserted := true; si_time := match rpr_time r with Some t => t | None => 0 end;
+          si_req := match rpr_time r with Some _ => true | None => false end |}
+  else {| si_asserted := false; si_time := 0; si_req := false |}.
+
+Definition rp_wire_bid (r : rp_sreport) : bid :=
+  {| bid_src := sr_ref_src r; bid_time := sr_ref_time r; bid_seq := sr_ref_seq r;
+     bid_frag := match sr_ref_frag r with Some _ => true | None => false end;
+     bid_off := match sr_ref_frag r with Some (o, _) => o | None => 0 end;
+     bid_total := match sr_ref_frag r with Some (_, t) => t | None => 0 end |}.
+
+Definition rp_wire_sreport (r : rp_sreport) : sreport :=
+  {| sr_items := map (rp_wire_item r) [0; 1; 2; 3]; sr_reason := rpr_reason r; sr_ref := rp_wire_bid r |}.
+
+Definition rp_wire (r : rp_sreport) : option (list N) := enc_admrec (ARStatus (rp_wire_sreport r)).
+
+(* the ID of a bundle (Bundle.ID(): offset and length only for a fragment) *)
+Definition rp_bundle_bid (b : bundle) : bid :=
+  let p := b_pri b in
+  {| bid_src := p_src p; bid_time := p_time p; bid_seq := p_seq p; bid_frag := has (p_flags p) F_FRAG;
+     bid_off := if has (p_flags p) F_FRAG then p_off p else 0;
+     bid_total := if has (p_flags p) F_FRAG then p_total p else 0 |}.
